@@ -9,10 +9,10 @@ ML = "internal/waroot/malloc"
 PKGS = [{"dir": WH, "name": "wh"}, {"dir": WB, "name": "main", "rt": False}, {"dir": ML, "name": "malloc", "rt": False}]
 
 # i32 arguments (addresses, sizes, loop counts, table indices) of these exports are assumed < max; all others unconstrained
-ARGMAX = [("mem/", 96), ("ctl/loop", 6), ("ctl/grow", 3), ("heap/", 96), ("prog/runtime.", 96),
+ARGMAX = [("mem/", 96), ("align/", 96), ("ctl/loop", 6), ("ctl/grow", 3), ("heap/", 96), ("prog/runtime.", 96),
           ("prog/runtime.Block.", 2), ("prog/runtime.Block.HeapAlloc", 4), ("prog/t_loop", 6),
           ("decl/data", 300), ("decl/misc", 8), ("named/", 8), ("index/", 8)]
-NAMES = ["ops", "mem", "ctl", "decl", "named", "index", "heap", "prog"]
+NAMES = ["ops", "mem", "align", "ctl", "decl", "named", "index", "heap", "prog"]
 HAND = {"ctl": "c04_ctl.wat", "decl": "c05_decl.wat", "named": "c06_named.wat", "index": "c06_index.wat"}
 
 
@@ -20,6 +20,7 @@ def corpus(scratch, wdir, ov):
     hfile = os.path.join(vlib.VERIF, "harness/go", WH, "zz_verif_c04.go")
     open(os.path.join(wdir, "ops.wat"), "w").write(wasmgen.c04_ops_wat(wasmgen.ops_from_harness(hfile)))
     open(os.path.join(wdir, "mem.wat"), "w").write(wasmgen.c04_mem_wat())
+    open(os.path.join(wdir, "align.wat"), "w").write(wasmgen.c05_align_wat())
     for n, f in HAND.items():
         shutil.copy(os.path.join(vlib.VERIF, "harness/wat", f), os.path.join(wdir, n + ".wat"))
     wa_src, _, _ = c01gen.gen("quick")
@@ -96,6 +97,41 @@ def reachable_functions(fmt_text):
     return seen, set(funcs)
 
 
+def repo_files(c, wdir, ov, transform_cmd, prop):
+    """The WAT files the repository itself carries (test data, examples) that the tree assembles: textual side checks
+    only (same binary / idempotence for the printer; output assembles / idempotence for the stripper)."""
+    import glob
+    files = sorted(glob.glob(os.path.join(vlib.REPO, "internal/wat/**/testdata/*.wat"), recursive=True) +
+                   glob.glob(os.path.join(vlib.REPO, "waroot/examples/**/*.wat"), recursive=True))
+    rdir = os.path.join(wdir, "repo")
+    os.makedirs(rdir)
+    pre = vlib.build_wasm_keepgoing(c.scratch, ov, [["wat2wasm", f, os.path.join(rdir, "m%d.wasm" % i)] for i, f in enumerate(files)])
+    ok = [(i, f) for i, f in enumerate(files) if i not in pre]
+    cmds = []
+    for i, f in ok:
+        b = os.path.join(rdir, "m%d" % i)
+        cmds += [[transform_cmd, f, b + "_t.wat"], ["wat2wasm", b + "_t.wat", b + "_t.wasm"], [transform_cmd, b + "_t.wat", b + "_tt.wat"]]
+    failed = vlib.build_wasm_keepgoing(c.scratch, ov, cmds)
+    for k, (i, f) in enumerate(ok):
+        rel = os.path.relpath(f, vlib.REPO)
+        b = os.path.join(rdir, "m%d" % i)
+        errs = {j: failed[3 * k + j] for j in range(3) if 3 * k + j in failed}
+        src = open(f).read()
+        if 0 in errs:
+            side_violation(c, "transform/repo:%s/%s/accepts-valid-module" % (rel, transform_cmd), {"module": rel, "step": transform_cmd, "error": errs[0], "wat": src})
+            continue
+        if 1 in errs:
+            side_violation(c, "transform/repo:%s/%s/output-is-a-valid-module" % (rel, transform_cmd), {"module": rel, "step": "wat2wasm of the output", "error": errs[1], "wat": src})
+            continue
+        label = "print" if prop == "C05" else "strip"
+        if prop == "C05" and open(b + ".wasm", "rb").read() != open(b + "_t.wasm", "rb").read():
+            side_violation(c, "print/repo:%s/watfmt/same-binary" % rel, {"module": rel, "step": "compare wat2wasm(src) with wat2wasm(print(parse(src)))", "wat": src})
+        if 2 in errs or open(b + "_t.wat").read() != open(b + "_tt.wat").read():
+            side_violation(c, "%s/repo:%s/%s/idempotent" % (label, rel, transform_cmd), {"module": rel, "step": "transform twice", "error": errs.get(2, "texts differ"), "wat": src})
+    c.notes.append("NOTE: %d WAT files carried by the repository checked textually (%d more are not assembled by the tree and were skipped)" % (len(ok), len(files) - len(ok)))
+    return len(ok)
+
+
 def run_equiv(prop, tier, seed, transform_cmd, what, assumptions):
     c = vlib.GoCheck(prop, "translation_validation", tier, seed)
     c.assumptions = assumptions
@@ -139,7 +175,8 @@ def run_equiv(prop, tier, seed, transform_cmd, what, assumptions):
                                    {"module": n, "step": "compare the kept function set with independent reachability",
                                     "kept_but_unreachable": sorted(kept - reach)[:20], "removed_but_reachable": sorted(reach - kept)[:20], "wat": src})
                 c.notes.append("NOTE: %s: %d functions, %d reachable, %d kept" % (n, len(allf), len(reach), len(kept)))
-    c.extra_cov["programs"] = len(NAMES)
+    nrepo = repo_files(c, wdir, ov, transform_cmd, prop)
+    c.extra_cov["programs"] = len(NAMES) + nrepo
     c.bounds["i32_argument_bounds"] = {k: v for k, v in ARGMAX}
     extra = pairs_file(c.scratch, usable)
     vlib.REPLAY_ENV["VF_WASM_DIR"] = wdir
@@ -195,6 +232,7 @@ def replay_equiv(prop, transform_cmd, path):
 ASSUME = [
     "corpus (enumerated, not every module): 123 one-instruction numeric functions, 92 load/store functions with offset/align immediates (unnamed functions with inline exports), the hand-written control module (branches, br_table, loop, if/else, select, call_indirect, globals, memory.grow, boundary constants), a declaration module (imports of a function and a global, memory and table limits, types, globals of all four types, data strings with escapes, elem, start, stand-alone and inline exports, float constants at rounding boundaries, unnamed locals and parameters, block results, memory.copy/fill, nop, unreachable), two modules aimed at stripping (dead functions, functions reachable only through start / the table / nested blocks, an import used only by dead code; index references and unnamed functions), the expanded allocator malloc.wat, and the compiler's output for the C01 template program with its whole runtime",
     "for every function exported by the original module the original binary and the transformed one are executed symbolically with the same symbolic arguments and a symbolic 16-byte memory window; trap outcome, results (NaN payloads ignored), the window, the page count and the number of host calls must agree; the export must still exist with the same signature; i32 arguments that are addresses, sizes, table indices or loop counts are bounded as listed under bounds, every other argument is unconstrained",
+    "in addition every .wat file carried by the repository (parser/watutil test data, waroot examples) that the tree assembles is checked textually: same binary and idempotence for the printer, output assembles and idempotence for the stripper; no symbolic execution there",
     "host functions return 0; call sequences longer than one call per fresh instance are outside (the start function runs at instantiation in both)",
 ]
 
